@@ -73,6 +73,7 @@ pub fn replay(rf: &ReplayFile) -> anyhow::Result<Option<Failure>> {
         ("C02", "free-history") => memrace::replay_history(&rf.case),
         ("C02", _) => memrace::exec_case(&case_from(rf)?).failure,
         ("C06", _) => fetchcheck::exec_fetch(fetchcheck::Which::C06, &case_from(rf)?).failure,
+        ("C11", "free-history") => memrace::replay_c11_history(&rf.case),
         ("C11", _) => fetchcheck::exec_fetch(fetchcheck::Which::C11, &case_from(rf)?).failure,
         ("C17", "hybrid-collide") => c17check::replay_hybrid(case_from(rf)?),
         ("C17", "memory-collide") => c17check::replay_mem(case_from(rf)?),
